@@ -1,4 +1,5 @@
 import IcyVerif.Model.IcyDraw
+import IcyVerif.Model.IcyDrawFont
 import IcyVerif.Model.Unicode
 import IcyVerif.Drv.Util
 /-! Line-protocol handler for the IcyDraw model (C07).  Request lines start with `icydraw`. -/
@@ -129,7 +130,32 @@ def parseKVs : List String → Option (List (String × Bytes))
     | some kv, some r => some (kv :: r)
     | _, _ => none
 
+/-- a slot font as the harness describes it: `BitFont::create_8(name, w, h, data)` with `length` set afterwards
+    (`glyphs_from_u8_data` cuts all of `data`, so 512-glyph fonts are built the same way) -/
+def mkSlotFont (name : Bytes) (w h length : Nat) (data : Bytes) : SlotFont :=
+  ⟨name, { w := w, h := h, length := length, glyphs := Font.glyphsFromU8 h data }⟩
+
+/-- name, width, height, length, number of glyphs, hash of their codes, hash of (row count, rows) per glyph in code order -/
+def slotFontObs (f : SlotFont) : String :=
+  let keyed := (f.font.glyphs.zipIdx).filterMap fun p => match p.1 with | some g => some (p.2, g) | none => none
+  "ok " ++ toHex f.name ++ " " ++ toString f.font.w ++ " " ++ toString f.font.h ++ " " ++ toString f.font.length ++ " " ++
+  toString keyed.length ++ " " ++ toString (fnv (keyed.map (·.1))) ++ " " ++
+  toString (fnv (keyed.flatMap fun kg => kg.2.length :: kg.2))
+
 def handle : List String → String
+  | ["encfont", name, w, h, len, data] =>
+    match parseHex name, nat? w, nat? h, nat? len, parseHex data with
+    | some name, some w, some h, some len, some data =>
+      match encodeFontChunk (mkSlotFont name w h len data) with
+      | some p => "ok " ++ payloadDigest p
+      | none => "none"
+    | _, _, _, _, _ => "bad-op"
+  | ["decfont", hx] =>
+    match parseHex hx with
+    | some b => match decodeFontChunk b with
+      | .ok f => slotFontObs f
+      | .fail e => "fail:" ++ failName e
+    | none => "bad-op"
   | ["enchdr", bt, ice, pal, font, w, h] =>
     match nat? bt, nat? ice, nat? pal, nat? font, nat? w, nat? h with
     | some bt, some ice, some pal, some font, some w, some h => toHex (encodeHeader ⟨bt, ice, pal, font, w, h⟩)
